@@ -192,13 +192,20 @@ class DataCollection:
             write = True
 
         if write:
-            if self.write_to_disk.is_set():
-                self.logger.warning("Unable to write fast enough.")
-            else:
+            if self.trigger_write():
                 self.next_write = elapsed + DataCollection.WRITE_PERIOD
-                self.trigger_write()
 
-    def trigger_write(self):
+    def trigger_write(self) -> bool:
+        """Hand the recorded messages to the write thread.
+
+        Returns False, leaving the record buffers untouched, while the
+        previous request has not been consumed yet: staging again would
+        replace a buffer that is still waiting to be (or being) written.
+        """
+        if self.write_to_disk.is_set():
+            self.logger.warning("Unable to write fast enough.")
+            return False
+
         for ds in self.datasets:
             ds.stage_for_write()
 
@@ -208,6 +215,7 @@ class DataCollection:
         if not self.use_thread:
             self.blocking_write()
         self.logger.debug("Writing data set buffers to disk.")
+        return True
 
     def add_data_set(self, data_set: DataSet):
         if data_set.name in [ds.name for ds in self.datasets]:
